@@ -29,7 +29,9 @@ def parseInstr : List String → Option (Instr Nat)
   | ["I", args] => do pure (.inter (← parseNats args))
   | ["U", args] => do pure (.union (← parseNats args))
   | ["D", a, b] => do pure (.diff (← a.toNat?) (← b.toNat?))
-  | ["B", pts, inBall, other] => do pure (.ball (← pts.toNat?) (← parseNats inBall) (← other.toNat?))
+  | ["B", pts, inBall, other] => do
+    let ib ← if inBall == "N" then some none else (parseNats inBall).map some
+    pure (.ball (← pts.toNat?) ib (← other.toNat?))
   | _ => none
 
 /-- split a token list at ";" -/
@@ -56,7 +58,7 @@ def handle : List String → String
     match (splitSemis rest).mapM parseInstr with
     | none => "bad-op"
     | some prog =>
-      match (evalProgram cfg Scenic.Gen.ballFilter prog).getLast? with
+      match (evalProgram cfg Scenic.Gen.ballFilter Scenic.Gen.ballFallback prog).getLast? with
       | none => "bad-op"
       | some o => match o.sampler with
         | none => "undef"
